@@ -70,6 +70,10 @@ def gen_case(seed: int, tier: str, index: int) -> Dict[str, Any]:
     cfg = {"profile": profile, "net": net, "loop": loop_cfg, "tables": tables, "duration": dur, "silent": silent,
            "snapshot": snaps[rng.randrange(len(snaps))].split("/")[-1],
            "suspend_p": rng.choice([0.0, 0.0, 0.1]), "suspend_max": 0.5}
+    if rng.random() < 0.3:
+        from sim.system import draw_firmware
+
+        cfg["firmware"] = draw_firmware(rng)
     return {"property": PROP, "world": "A", "seed": seed, "cfg": cfg, "plan": plan}
 
 
